@@ -47,8 +47,7 @@ CONSTANTS Senders,      \* key ids that send trust messages
           MsgKeys,      \* key ids a trust message may name
           MaxDec,       \* max decisions per trust message
           ManualMax,    \* max keys per manual decision
-          Policies,     \* subset of {"None", "Toakafa"}
-          InitNames,    \* subset of {"blank", "auto", "mixed"}
+          Combos,       \* set of <<policy, initial levels>>: {"None","Toakafa"} \X {"blank","auto","mixed"}
           MaxHist       \* bound on the number of steps of a behaviour
 
 VARIABLES lv,           \* [Accounts \X Keys -> Levels]
@@ -69,6 +68,12 @@ Pairs    == Accounts \X Keys
 Owned    == {<<KeyOwner[k], k>> : k \in Keys}
 Levels   == {"Und", "ADis", "MDis", "ATru", "MTru", "Auth"}   \* QXmpp::TrustLevel
 Own      == "own"
+
+\* fixed order in which the levels of all pairs are exported / logged
+PairSeq == [i \in 1..(Len(AcctSeq) * Len(KeySeq)) |->
+              <<AcctSeq[((i - 1) \div Len(KeySeq)) + 1], KeySeq[((i - 1) % Len(KeySeq)) + 1]>>]
+PairIdx == [p \in Pairs |-> CHOOSE i \in DOMAIN PairSeq : PairSeq[i] = p]
+LvSeq(f) == [i \in DOMAIN PairSeq |-> f[PairSeq[i]]]
 
 KeyIds(S) == {p[2] : p \in S}
 OwnersOf(S) == {p[1] : p \in S}
@@ -158,11 +163,16 @@ InitLv(n) ==
                    [] n = "mixed" -> [o1 |-> "Auth", o2 |-> "MDis", a1 |-> "MTru", a2 |-> "ATru", b1 |-> "ADis"]
     IN [p \in Pairs |-> IF p \in Owned THEN owned[p[2]] ELSE "Und"]
 
+\* named choices for the constant Combos (a .cfg file cannot spell tuples)
+CombosAll == {"None", "Toakafa"} \X {"blank", "auto", "mixed"}
+CombosQ4  == {"None", "Toakafa"} \X {"auto", "mixed"}       \* "blank" behaves like "auto" in the model
+CombosT4  == {"None", "Toakafa"} \X {"blank", "mixed"}
+CombosT2  == {<<"None", "blank">>, <<"Toakafa", "mixed">>}
+
 St == [lv |-> lv, pp |-> pp]
 
 Init ==
-    /\ policy \in Policies
-    /\ lv \in {InitLv(n) : n \in InitNames}
+    /\ \E c \in Combos : policy = c[1] /\ lv = InitLv(c[2])
     /\ init0 = lv
     /\ pp = {}
     /\ hist = <<>>
